@@ -70,6 +70,14 @@ func (p Pattern) Matches(s string) bool {
 		case '$':
 			fallthrough
 		case '*':
+			// Only a wildcard at the start of a token
+			if pi > 1 && p[pi-2] != '.' {
+				if c != s[si] {
+					return false
+				}
+				si++
+				break
+			}
 			for pi < pl && p[pi] != '.' {
 				pi++
 			}
